@@ -27,7 +27,7 @@ na = [{"property_id": p['id'], "reason": NOT_APPLICABLE.get(p['id'], "check not 
 m = {"version": 1,
      "setup_cmd": "bin/setup",
      "hooks": {"guard": "SPYDRNET_VERIF",
-               "enable": "export SPYDRNET_VERIF=1 before importing spydrnet (bin/check does); with the variable unset no hook code is imported",
+               "enable": "nothing is built; conform/suiteflow.py runs the repository tests with SPYDRNET_VERIF=1 and /verif/conform on PYTHONPATH, which makes spydrnet/__init__.py import conform/spydrnet_verif_recorder.py and let it wrap the public mutators (one trace record per outermost call); every other check runs with the variable unset, i.e. on the unhooked code",
                "baseline_off_cmd": "cd /repo && env -u SPYDRNET_VERIF /venv/bin/python -m pytest -ra -q -p no:cacheprovider --timeout=900 --continue-on-collection-errors",
                "source_commits": HOOK_COMMITS, "add_only": True},
      "engines": [{"name": "tlc-model-and-trace", "path": "/verif/spec",
